@@ -284,7 +284,6 @@ theorem inv_store_state (c : Cfg) (hc : c.Ok) (s s' : State) (h : Inv c s) (j i 
   have hsbj : ∀ k', sbit s' j k' = if k' = k then 1 else 0 := by
     intro k'; simp [sbit, e_infl]
     by_cases e : k = k' <;> simp [e, Ne.symm, eq_comm]
-    · intro e'; exact absurd e'.symm e
   have hsbj0 : ∀ k', sbit s j k' = 0 := by intro k'; simp [sbit, ht]
   have hsbo : ∀ p k', p ≠ j → sbit s' p k' = sbit s p k' := by
     intro p k' hp; simp [sbit, e_infl, upd_apply, hp]
@@ -501,7 +500,7 @@ theorem inv_store_state (c : Cfg) (hc : c.Ok) (s s' : State) (h : Inv c s) (j i 
             split
             · rename_i e; subst e
               simp [ht]
-              intro e; exact h00 ⟨rfl, e.symm⟩
+              intro e; exact h00 ⟨rfl, e⟩
             · rfl
           apply (h.peer q hq hqn).congr <;>
             first
